@@ -33,8 +33,13 @@ var e1child = flag.String("e1child", "", "internal: job:shard/nshards:deadlineUn
 // (job, shard) with GOMAXPROCS=1, at most c.Workers at a time, and merges the statistics.
 // budget is the wall-clock budget of the whole batch.
 func (c *Check) E1Batch(jobs []E1Job, budget time.Duration) {
+	c.batchNo++
 	if *e1child != "" {
-		c.e1ChildMain(jobs)
+		var b int
+		fmt.Sscanf(*e1child, "b%d:", &b)
+		if b == c.batchNo {
+			c.e1ChildMain(jobs)
+		}
 		return
 	}
 	if len(jobs) == 0 {
@@ -79,11 +84,11 @@ func (c *Check) E1Batch(jobs []E1Job, budget time.Duration) {
 		go func(ui int, u unit) {
 			defer wg.Done()
 			defer func() { <-sem }()
-			out := filepath.Join(dir, fmt.Sprintf("u%d.json", ui))
+			out := filepath.Join(dir, fmt.Sprintf("b%d-u%d.json", c.batchNo, ui))
 			_ = os.Remove(out)
 			dl := time.Now().Add(per)
 			args := []string{"-tier", c.Tier, "-seed", fmt.Sprint(c.Seed), "-verif", c.verifDir, "-workers", "1",
-				"-e1child", fmt.Sprintf("%d:%d/%d:%d:%s", u.job, u.shard, u.n, dl.UnixMilli(), out)}
+				"-e1child", fmt.Sprintf("b%d:%d:%d/%d:%d:%s", c.batchNo, u.job, u.shard, u.n, dl.UnixMilli(), out)}
 			cmd := exec.Command(os.Args[0], args...)
 			cmd.Env = append(os.Environ(), "GOMAXPROCS=1", "GOGC=200")
 			cmd.Stderr = os.Stderr
@@ -167,7 +172,10 @@ func (c *Check) e1ChildMain(jobs []E1Job) {
 	var ji, sh, n int
 	var dl int64
 	var out string
-	parts := strings.SplitN(*e1child, ":", 4)
+	parts := strings.SplitN(*e1child, ":", 5)
+	if len(parts) == 5 {
+		parts = parts[1:]
+	}
 	if len(parts) != 4 {
 		fmt.Fprintln(os.Stderr, "bad -e1child")
 		os.Exit(2)
@@ -181,7 +189,17 @@ func (c *Check) e1ChildMain(jobs []E1Job) {
 		os.Exit(2)
 	}
 	j := jobs[ji]
-	st := explore.Explore(explore.Config{Bound: j.Bound, Workers: 1, Deadline: time.UnixMilli(dl), Shard: sh, NShards: n}, j.Run)
+	run := j.Run
+	if os.Getenv("VERIF_DEBUG_NATIVE") != "" {
+		run = func(d []vrt.Dev) *explore.Exec {
+			x := j.Run(d)
+			if x.S != nil && x.S.NativeBlock != "" {
+				_ = os.WriteFile(out+".nativeblock.txt", []byte(x.S.NativeBlock), 0o644)
+			}
+			return x
+		}
+	}
+	st := explore.Explore(explore.Config{Bound: j.Bound, Workers: 1, Deadline: time.UnixMilli(dl), Shard: sh, NShards: n}, run)
 	// keep the file small: at most 64 outcomes are carried back
 	if len(st.Outcomes) > 64 {
 		keys := make([]string, 0, len(st.Outcomes))
@@ -197,6 +215,7 @@ func (c *Check) e1ChildMain(jobs []E1Job) {
 		}
 		st.Outcomes["(other outcomes)"] = extra
 	}
+	profStop()
 	b, _ := json.Marshal(st)
 	if err := os.WriteFile(out, b, 0o644); err != nil {
 		fmt.Fprintln(os.Stderr, err)
